@@ -157,6 +157,9 @@ func HashAbstract(on bool)      {}
 func PermuteMaps(fn string)     {}
 func Preemptions(n int)         {}
 func PreemptIn(fn string)       {}
+
+// NoSlowHolders switches the model's "a lock holder is slower than the lease" decision off.
+func NoSlowHolders() {}
 func Yield()                    { yieldNative() }
 
 // Slow makes the caller take longer than the server's lock lease (native demonstrations only).
